@@ -979,6 +979,14 @@ class Scene(Geometry3D):
                 # check to see if the scene is transforming the path out of plane
                 check = util.isclose(transform, util._IDENTITY, atol=1e-8)
                 check[:2, :3] = True
+                if len(current.vertices) > 0:
+                    # an absolute tolerance on the Z row of the matrix is a real
+                    # offset for a small path and a real tilt for a large one:
+                    # compare where the vertices end up to the size of the path
+                    height = np.dot(current.vertices, transform[2, :2]) + transform[2, 3]
+                    check[2, [0, 1, 3]] = (
+                        np.abs(height).max() <= 1e-12 * np.ptp(current.vertices, axis=0).max()
+                    )
                 if not check.all():
                     # transform moves in 3D so we put this on the Z=0 plane
                     current = current.to_3D()
